@@ -707,10 +707,13 @@ func (c *Client) Do(ctx context.Context, q Query) (err error) {
 				}
 				ce.Write(zap.Any("columns", info))
 			}
+			// Sender gets its own copy: result is decoded into again if
+			// server sends one more data block.
+			info := append(proto.ColInfoInput(nil), result...)
 			select {
 			case <-ctx.Done():
 				return ctx.Err()
-			case colInfo <- result:
+			case colInfo <- info:
 				return nil
 			}
 		}
